@@ -16,6 +16,15 @@ MCMsgs(s, h) ==
        [type : {"EnableAttester", "DisableAttester"}, from : {"a1", "a2"}, att : Strings \cup Invalid \cup {A("k5")}]
   \cup [type : {"UpdateSignatureThreshold"}, from : {"a1", "a2"}, amt : 0..(Cardinality(Strings) + 1)]
 
+\* every transition of CCTP.tla's handlers on (attesters, threshold) is a step of Ind_Attesters.tla's Next, whose
+\* inductive invariant Apalache discharges for a larger universe (so that result speaks about these handlers)
+IndStep(a, t, a2, t2) ==
+  \/ \E x \in Strings \cup {A("k5")} : x \notin a /\ a2 = a \cup {x} /\ t2 = t
+  \/ \E x \in a : Cardinality(a) # 1 /\ Cardinality(a) > t /\ a2 = a \ {x} /\ t2 = t
+  \/ \E n \in 0..20 : n # 0 /\ n # t /\ n <= Cardinality(a) /\ t2 = n /\ a2 = a
+  \/ (a2 = a /\ t2 = t)
+AttesterRulesRefine == [][Ended => IndStep(st.attesters, st.threshold, st'.attesters, st'.threshold)]_vars
+
 Init == InitOver(MCInit)
 Next == NextOver(MCMsgs, 1000)
 Spec == Init /\ [][Next]_vars
